@@ -158,10 +158,11 @@ def c16_case(tdir, d, k, b):
     rc_, rs_, re_ = 2, 3, 9
     if max(it[0] for it in items) < 2:
         rc_ = 1
-    if cfg["restrict"] in ("chrom", "range"):
+    if cfg["restrict"] in ("chrom", "range", "start", "end"):
         a2.append(("-chrom=%s" if ucsc else "--chrom=%s") % chrom_name(rc_))
-    if cfg["restrict"] == "range":
+    if cfg["restrict"] in ("range", "start"):
         a2.append(("-start=%d" if ucsc else "--start=%d") % rs_)
+    if cfg["restrict"] in ("range", "end"):
         a2.append(("-end=%d" if ucsc else "--end=%d") % re_)
     rc2, err2 = 1, ""
     if rc1 == 0 and os.path.exists(big):
@@ -175,7 +176,7 @@ def c16_case(tdir, d, k, b):
             os.remove(p)
         except OSError:
             pass
-    return {"cfg": cfg, "path": b["path"], "items": items, "rc": rc_, "rs": rs_, "re": re_, "obs": obs, "argv1": a1[3:], "argv2": a2[2:]}
+    return {"cfg": cfg, "path": b["path"], "items": items, "rc": rc_, "rs": rs_, "re": re_, "size": size, "obs": obs, "argv1": a1[3:], "argv2": a2[2:]}
 
 
 def run_parallel(fn, jobs, workers=8):
@@ -207,7 +208,7 @@ def c16_main():
     obs = run_parallel(lambda kb: c16_case(tdir, d, kb[0], kb[1]), list(enumerate(beh)))
     lines = []
     for o in obs:
-        lines.append(json.dumps({k: o[k] for k in ("cfg", "items", "rc", "rs", "re", "obs")}, separators=(",", ":")))
+        lines.append(json.dumps({k: o[k] for k in ("cfg", "items", "rc", "rs", "re", "size", "obs")}, separators=(",", ":")))
         c = o["cfg"]
         run.count_case(json.dumps(c, sort_keys=True), c["threads"] > 1 or c["style"] == "ucsc" or c["restrict"] != "none")
     bad = validate_obs("Obs_Cli", "Obs.cfg", lines, run.wd, "obs", shards=4)
@@ -274,7 +275,10 @@ def make_bigwig(tdir, d, tag, items, size=None):
 
 def c17_case(tdir, d, k, b):
     tag = "c17_%d" % k
-    bw, _ = make_bigwig(tdir, d, tag, b["items"])
+    # one data block per value (items_per_slot = 1, written through the library: the CLI cannot set it)
+    bw = os.path.join(d, "bw_%s.bw" % tag)
+    import shutil as _sh
+    _sh.copyfile(b["bwpath"], bw)
     bed = os.path.join(d, "r_%s.bed" % tag)
     with open(bed, "w") as f:
         for i, r in enumerate(b["regions"], 1):
@@ -362,6 +366,19 @@ def c17_main():
     tdir = tools_dir()
     d = os.path.join(run.wd, "files")
     os.makedirs(d, exist_ok=True)
+    dss = {}
+    for b in beh:
+        dss.setdefault(b["ds"], b["items"])
+    wc = []
+    for ds, items in sorted(dss.items()):
+        wc.append({"kind": "bw", "chroms": [40] * max(it[0] for it in items), "items": items, "vmap": "int", "scale": 1, "allq": 0, "zq": 0, "mz": [], "asq": "bed3", "long": 0,
+                   "opts": {"ips": 1, "bs": 2, "zooms": [], "zmode": "manual", "compress": 1, "inmem": 1, "rt": "current", "threads": 1, "pass": 1, "chan": 100},
+                   "dump": os.path.join(d, "ds%d.bw" % ds), "ds": ds})
+    for o in run_harness("bbi", wc, run.wd, shards=1):
+        if o["obs"].get("result") != "ok":
+            raise ToolError("cannot prepare the bigWig for C17: %s" % o["obs"])
+    for b in beh:
+        b["bwpath"] = os.path.join(d, "ds%d.bw" % b["ds"])
     res = run_parallel(lambda kb: c17_case(tdir, d, kb[0], kb[1]), list(enumerate(beh)))
     obs = [o for pair in res for o in pair]
     # library level: stats_for_bed_item / bigwig_average_over_bed through the harness
